@@ -74,6 +74,23 @@ Definition root_entry_ok (s : sdocument) (k : op_kind) : bool :=
   | None => true
   end.
 
+(* every type reference written in the schema is expressible in the grammar (no "T!!") *)
+Definition ivs_proper (ivs : list input_value_def) : bool := forallb (fun iv => ty_proper (iv_type iv)) ivs.
+Definition fields_proper (fs : list field_def) : bool :=
+  forallb (fun f => ty_proper (fd_type f) && ivs_proper (fd_args f)) fs.
+Definition type_proper (t : type_def) : bool :=
+  match t with
+  | TDObject _ _ fs | TDInterface _ _ fs => fields_proper fs
+  | TDInputObject _ fs => ivs_proper fs
+  | _ => true
+  end.
+Definition schema_types_proper (s : sdocument) : bool :=
+  forallb type_proper (type_defs s) && forallb (fun d => ivs_proper (dd_args d)) (directive_defs s).
+
+(* the same for the variable types of a document *)
+Definition doc_types_proper (d : document) : bool :=
+  forallb (fun o => forallb (fun v => ty_proper (v_type v)) (op_variable_definitions o)) (operations_of d).
+
 Definition wf_schema (s : sdocument) : bool :=
   nodup_names (map td_name (type_defs s)) &&
   nodup_names (map dd_name (directive_defs s)) &&
@@ -83,7 +100,23 @@ Definition wf_schema (s : sdocument) : bool :=
   is_some (root s OpQuery) &&
   root_entry_ok s OpMutation && root_entry_ok s OpSubscription &&
   forallb (wf_type s) (type_defs s) &&
-  forallb (fun d => wf_input_values s (dd_args d)) (directive_defs s).
+  forallb (fun d => wf_input_values s (dd_args d)) (directive_defs s) &&
+  schema_types_proper s.
+
+Lemma wf_types_proper s : wf_schema s = true -> schema_types_proper s = true.
+Proof.
+  unfold wf_schema. intro H. apply andb_prop in H. destruct H as [_ H]. exact H.
+Qed.
+Lemma wf_directive_args s : wf_schema s = true ->
+  forallb (fun d => wf_input_values s (dd_args d)) (directive_defs s) = true.
+Proof.
+  unfold wf_schema. intro H. apply andb_prop in H. destruct H as [H _].
+  repeat (apply andb_prop in H; destruct H as [H ?]). assumption.
+Qed.
+Lemma wf_unique_directives s : wf_schema s = true -> nodup_names (map dd_name (directive_defs s)) = true.
+Proof.
+  unfold wf_schema. intro H. repeat (apply andb_prop in H; destruct H as [H ?]). assumption.
+Qed.
 
 Lemma wf_query_entry_ok s : wf_schema s = true -> query_entry_ok s = true.
 Proof.
